@@ -17,7 +17,13 @@ class CHECK(Check):
             "truncated records, for record layouts of 1-3 types and peek windows 1..identifier width; (c) block files, text "
             "and binary, (d) section files. Observed: completion within the budget and the number of elements created. "
             "non-trivial = non-empty content; distinct = hash"
-            " Later additions: a catch-all register (empty identifier, zero-width window) in text files, class hierarchies, path reads.")
+            " Later additions: a catch-all register (empty identifier, zero-width window) in text files, class hierarchies, path reads; "
+            "(e) reading histories over SHARED register classes: 1-3 register classes (positional or delimited Line, identifier "
+            "window 0-4 incl. the Register base-class defaults: empty identifier, zero-width window) declared both in a text and in "
+            "a binary file class; 0-2 earlier contents (records, rows of delimited tokens incl. rows whose tokens are all empty, "
+            "blank lines, garbage, truncated binary records) are read through either file class before the measured read of "
+            "either storage; every read of the history runs under its own budget and is judged, the measured one is also "
+            "compared with the model (a read depends only on the content and the definitions).")
     exhaustive = True
 
     def entry_of(self, case):
@@ -100,14 +106,119 @@ class CHECK(Check):
             else:
                 lines = [rng.choice(SL) for _ in range(rng.randint(0, 8))]
                 yield {"fam": "section", "binary": False, "secs": gen_secdefs(rng, rng.random() < 0.35), "content": "\n".join(lines) + rng.choice(["\n", ""])}
+        # (e) the same register classes (hence the same class-level Line and Field objects) declared in a text AND in a binary file
+        # class, and a history: other contents read through either file class before the measured read (generated after the
+        # older families so that their random stream is unchanged).
+        # Complete small scope: every history of at most one earlier read over a small pool of contents of both storages
+        lit = lambda size, start: {"k": "lit", "size": size, "start": start}
+        num = lambda k, size, start: dict({"k": k, "size": size, "start": start}, **({"dd": 2, "fmt": "F", "sep": "."} if k == "float" else {}))
+        areg = lambda delim: {"ident": "A", "digits": 2, "fields": [num("int", 4, 2), lit(3, 6)], "delim": delim}
+        dflt = lambda digits, delim: {"ident": "", "digits": digits, "fields": [lit(3, digits), num("int", 4, digits + 3)], "delim": delim}
+        for defs in ([dflt(0, ",")], [areg(";"), dflt(0, None)], [areg(None), dflt(0, "|")], [dflt(2, ";")], [areg(","), {"ident": "B", "digits": 1, "fields": [num("float", 8, 1)], "delim": ","}]):
+            pool = [(False, ""), (False, "garbage\n"), (True, ""), (True, "z")]
+            for d in defs:
+                sep, nf = d["delim"] or ";", len(d["fields"])
+                w = d["digits"] + sum(f["size"] for f in d["fields"])
+                rec = (d["ident"].ljust(d["digits"]) + "12345678901234")[:w]
+                pool += [(False, rec + "\n" + sep.join([d["ident"]] + ["12"] * nf)), (False, rec + "\n" + sep * nf + "\n"),
+                         (True, rec + rec[: w // 2]), (True, sep * nf + rec)]
+            for before in [None] + pool:
+                for binary, content in pool:
+                    yield {"fam": "reg", "binary": binary, "defs": defs, "linesize": 1, "content": content,
+                           "before": [] if before is None else [{"binary": before[0], "linesize": 1, "content": before[1]}]}
+        # random: 1-3 generated classes, 0-2 earlier reads
+        for _ in range(800 if tier == "quick" else 20000):
+            defs = self.shared_defs(rng)
+            steps = []
+            for _ in range(rng.choice([0, 1, 1, 2]) + 1):
+                binary = rng.random() < 0.5
+                steps.append({"binary": binary, "linesize": rng.choice([1, defs[0]["digits"] or 1, 8]) if binary else 1,
+                              "content": self.step_content(rng, defs, binary)})
+            last = steps.pop()
+            yield {"fam": "reg", "binary": last["binary"], "defs": defs, "linesize": last["linesize"], "content": last["content"], "before": steps}
+
+    @staticmethod
+    def shared_defs(rng):
+        """1-3 register definitions whose fields are valid in both storages; any of them may declare a delimiter (used by the
+        text storage, ignored by the binary one); half of the lists hold a register that keeps the base-class identifier
+        defaults (IDENTIFIER = "", IDENTIFIER_DIGITS = 0: it claims whatever the earlier ones do not)"""
+        idents = rng.sample(["A", "AB", "X1", "Q", "Z9", "B"], rng.randint(1, 3))
+        if rng.random() < 0.5:
+            idents[rng.choice([-1, -1, 0])] = ""
+        out = []
+        for ident in idents:
+            digits = rng.randint(len(ident), len(ident) + 2) if ident or rng.random() < 0.3 else 0
+            fs = []
+            pos = digits
+            for _ in range(rng.randint(1, 3)):
+                k = rng.choice(["lit", "lit", "int", "float"])
+                if k == "lit":
+                    fd = {"k": "lit", "size": rng.randint(1, 6), "start": pos}
+                else:
+                    fd = {"k": k, "size": rng.choice([2, 4, 8]), "start": pos}
+                    if k == "float":
+                        fd.update({"dd": 2, "fmt": "F", "sep": "."})
+                fs.append(fd)
+                pos += fd["size"]
+            out.append({"ident": ident, "digits": digits, "fields": fs, "delim": rng.choice([None, None, ";", ",", "|", "\t"])})
+        if len(out) > 1 and rng.random() < 0.2:
+            out[-1]["parent"] = 0
+        return out
+
+    @staticmethod
+    def step_content(rng, defs, binary):
+        """one content of a history: records of the declared types (whole or truncated), rows of delimited tokens (tokens empty,
+        blank, narrower or wider than the fields; rows that hold no value at all), blank lines and garbage"""
+        parts = []
+        for _ in range(rng.randint(0, 4)):
+            d = rng.choice(defs)
+            w = sum(f["size"] for f in d["fields"])
+            k = rng.random()
+            if k < 0.35:
+                rec = d["ident"].ljust(d["digits"]) + "".join(rng.choice("ab 0123456789.-\x01z") for _ in range(w))
+                parts.append(rec if binary or rng.random() < 0.8 else rec[: rng.randint(0, len(rec))])
+            elif k < 0.7:
+                sep = d["delim"] or rng.choice(";,|")
+                if rng.random() < 0.5:
+                    toks = [rng.choice(["", "", " "]) for _ in range(len(d["fields"]) + rng.choice([0, 1, 1, 2]))]
+                else:
+                    toks = [d["ident"]] + [rng.choice(["", " ", "ab", "12", "-3.5", "abcdefghij"]) for _ in range(rng.randint(0, len(d["fields"]) + 1))]
+                parts.append(sep.join(toks))
+            else:
+                parts.append(rng.choice(["", " ", "A", "garbage", "\t", "\x00", "z\x7f"]) if binary else rng.choice(["", " ", "A", "garbage", "\t"]))
+        if binary:
+            return "".join(p + rng.choice(["", "", "\n"]) for p in parts)
+        return "\n".join(parts) + (rng.choice(["\n", ""]) if parts else "")
 
     nonterminations = 0
+    shrinking = False
 
     TMP = None
 
+    def read_regfile(self, F, binary, content, linesize):
+        """one RegisterFile.read under its own call budget -> observation of that read"""
+        content = content.encode("latin-1") if binary else content
+        budget = 20000 + 1500 * (len(content) + 1)
+        try:
+            with lib.budget(budget):
+                f = F.read(content, linesize) if binary else F.read(content)
+                n = 0
+                for _ in f.data:
+                    n += 1
+                    if n > len(content) + 20:
+                        break
+        except lib.BudgetExceeded:
+            CHECK.nonterminations += 1
+            return {"terminated": False}
+        except UnicodeDecodeError:
+            return {"terminated": True, "raised": "UnicodeDecodeError"}
+        except Exception as e:
+            return {"terminated": True, "raised": type(e).__name__ + ": " + str(e)[:80]}
+        return {"terminated": True, "count": n - 1}
+
     def impl(self, case):
         # once many cases have exhausted their budget the verdict is clear; do not burn the budget thousands of times
-        if CHECK.nonterminations >= 25:
+        if CHECK.nonterminations >= (200 if CHECK.shrinking else 25):
             return {"terminated": True, "skipped_after_many_nonterminations": True}
         content = case["content"].encode("latin-1") if case["binary"] else case["content"]
         budget = 20000 + 1500 * (len(content) + 1)
@@ -122,11 +233,28 @@ class CHECK(Check):
             content_arg = path
         else:
             content_arg = content
+        before = []
+        if case["fam"] == "reg":
+            # the register classes are built once per case; a history reads other contents through file classes of either storage
+            # that declare these same classes (one file class per storage), each read under its own budget
+            regs = reglib.mk_register_classes(case["defs"])
+            fcls = {}
+            for st in case.get("before", []):
+                if st["binary"] not in fcls:
+                    fcls[st["binary"]] = reglib.mk_file_class(regs, st["binary"])
+                before.append(self.read_regfile(fcls[st["binary"]], st["binary"], st["content"], st["linesize"]))
+                if not before[-1]["terminated"]:
+                    return {"terminated": False, "measured_read_not_run": True, "before": before}
+            F = fcls.get(case["binary"]) or reglib.mk_file_class(regs, case["binary"])
+        res = self.measured(case, content, content_arg, budget, F if case["fam"] == "reg" else None)
+        if "before" in case:
+            res["before"] = before
+        return res
+
+    def measured(self, case, content, content_arg, budget, F):
         try:
             with lib.budget(budget):
                 if case["fam"] == "reg":
-                    regs = reglib.mk_register_classes(case["defs"])
-                    F = reglib.mk_file_class(regs, case["binary"])
                     f = F.read(content_arg, case["linesize"]) if case["binary"] else F.read(content_arg)
                 elif case["fam"] == "block":
                     blocks = bl.mk_block_classes(case["blocks"], case["binary"])
@@ -163,17 +291,36 @@ class CHECK(Check):
     def compare(self, case, iobs, mobs):
         if "raised" in iobs or "skipped_after_many_nonterminations" in iobs:
             return None    # an exception is a termination; other properties cover what is raised
+        # the model is a function of the content and the definitions: whatever was read before, the measured read must agree with it
+        iobs = {k: v for k, v in iobs.items() if k != "before"}
         if iobs != mobs:
             return "impl=%r model=%r" % (iobs, mobs)
         return None
 
     def oracle(self, case, obs):
-        if not obs["terminated"]:
-            return "reading did not terminate within the step budget (%s, %s storage)" % (case["fam"], "binary" if case["binary"] else "text")
-        if "raised" in obs or "skipped_after_many_nonterminations" in obs:
+        if "skipped_after_many_nonterminations" in obs:
             return None
-        c = case["content"]
-        bound = len(c) if case["binary"] else c.count("\n") + (1 if c and not c.endswith("\n") else 0)
+        # every read of a history is a reading of a finite content: each must terminate within the bound
+        nb = len(case.get("before", []))
+        for i, st in enumerate(case.get("before", [])):
+            if i >= len(obs["before"]):
+                return "the history stopped early without a non-terminating read"
+            why = self.judge_read(case, st["binary"], st["content"], obs["before"][i])
+            if why:
+                return why + " [read (%d) of (%d) through the same register classes]" % (i + 1, nb + 1)
+        if obs.get("measured_read_not_run"):
+            return "the history stopped early without a non-terminating read"
+        why = self.judge_read(case, case["binary"], case["content"], obs)
+        if why and nb:
+            return why + " [read (%d) of (%d) through the same register classes]" % (nb + 1, nb + 1)
+        return why
+
+    def judge_read(self, case, binary, c, obs):
+        if not obs["terminated"]:
+            return "reading did not terminate within the step budget (%s, %s storage)" % (case["fam"], "binary" if binary else "text")
+        if "raised" in obs:
+            return None
+        bound = len(c) if binary else c.count("\n") + (1 if c and not c.endswith("\n") else 0)
         if case["fam"] == "section":
             bound += len(case["secs"])
         if obs["count"] > bound:
@@ -184,13 +331,55 @@ class CHECK(Check):
         return len(case["content"]) > 0
 
     def classify(self, case):
-        return {"fam_" + case["fam"]: 1, "binary" if case["binary"] else "text": 1, "len_%02d" % min(len(case["content"]), 30): 1}
+        d = {"fam_" + case["fam"]: 1, "binary" if case["binary"] else "text": 1, "len_%02d" % min(len(case["content"]), 30): 1}
+        if "before" in case:
+            d["shared_register_classes"] = 1
+            d["history_%d_earlier_reads" % len(case["before"])] = 1
+            for st in case["before"]:
+                d["earlier_%s_then_%s" % ("binary" if st["binary"] else "text", "binary" if case["binary"] else "text")] = 1
+            if any(rd["ident"] == "" for rd in case["defs"]):
+                d["shared_with_default_identifier"] = 1
+            if any(rd.get("delim") for rd in case["defs"]):
+                d["shared_with_delimited_line"] = 1
+        return d
 
     def signature(self, case, why):
         import re
         return re.sub(r"\([0-9]+\)", "(#)", why)
 
     def shrink(self, case):
+        CHECK.shrinking = True
+        # a history: fewer earlier reads, fewer register classes, no delimiter, shorter earlier contents
+        bef = case.get("before", [])
+        for i in range(len(bef)):
+            c = dict(case)
+            c["before"] = bef[:i] + bef[i + 1:]
+            yield c
+        if bef:
+            defs = case["defs"]
+            if len(defs) > 1 and not any("parent" in rd for rd in defs):
+                for i in range(len(defs)):
+                    c = dict(case)
+                    c["defs"] = defs[:i] + defs[i + 1:]
+                    yield c
+            for i, rd in enumerate(defs):
+                if "parent" in rd:
+                    c = dict(case)
+                    c["defs"] = defs[:i] + [{k: v for k, v in rd.items() if k != "parent"}] + defs[i + 1:]
+                    yield c
+                if len(rd["fields"]) > 1:
+                    # drop the last column (the columns before it keep their places)
+                    last = max(range(len(rd["fields"])), key=lambda j: rd["fields"][j]["start"])
+                    c = dict(case)
+                    c["defs"] = defs[:i] + [dict(rd, fields=rd["fields"][:last] + rd["fields"][last + 1:])] + defs[i + 1:]
+                    yield c
+            for i, st in enumerate(bef):
+                t = st["content"]
+                cuts = [(a, b) for a in range(len(t)) for b in (len(t), a + 1) if b > a]
+                for a, b in cuts[:60]:
+                    c = dict(case)
+                    c["before"] = bef[:i] + [dict(st, content=t[:a] + t[b:])] + bef[i + 1:]
+                    yield c
         s = case["content"]
         for i in range(len(s)):
             c = dict(case)
